@@ -48,6 +48,14 @@ PROPS = {
                 "or two binds, stabilise called from a node function and from a handler; every history ends by dropping every handle and the state; "
                 "both build profiles; non-trivial = distinct history in which node functions ran or a panic was produced",
                 builds=("debug", "release"), require_wf=False, nq=200),
+    "C13": spec(["IncrVerif.Props.C13"], [("general", 0.3), ("bind", 0.3), ("subs", 0.2), ("expert", 0.2)],
+                ["api", "read", "ev-propagation"],
+                GEN + "each base history is turned into one variant per user-closure invocation (node function, fold pass, map_with_old, bind "
+                "closure, cutoff function, edge callback, expert recompute, update handler) of one or two of its stabilises: a panic is armed at "
+                "exactly that invocation (enumeration; capped at 6 per stabilise in the quick tier, 40 in thorough), then reads, a stabilise, a write, "
+                "another stabilise, and the drop of every handle and the state, each under catch_unwind; non-trivial = distinct variant in which the "
+                "armed panic fired",
+                derive="fault", require_wf=False, nq=60, nt=1500),
     "C09": dict(
         modules=["IncrVerif.Props.C09"],
         profiles=[("subs", 0.5), ("general", 0.3), ("bind", 0.2)],
